@@ -10,6 +10,7 @@ import (
 	"go/types"
 	"os"
 	"sort"
+	"strconv"
 	"strings"
 
 	"golang.org/x/tools/go/packages"
@@ -247,6 +248,39 @@ func streamerRenewals(p *packages.Package) []string {
 		res = append(res, r)
 		return true
 	})
+	return res
+}
+
+// every pruneServiceFor("name", func(params) { return actions.NewX(params) }) registration: (name, constructor)
+func pruneServices(p *packages.Package) []string {
+	var res []string
+	for _, f := range p.Syntax {
+		ast.Inspect(f, func(n ast.Node) bool {
+			c, ok := n.(*ast.CallExpr)
+			if !ok || exprName(c.Fun) != "pruneServiceFor" || len(c.Args) != 2 {
+				return true
+			}
+			name := "?"
+			if bl, ok := c.Args[0].(*ast.BasicLit); ok {
+				if u, err := strconv.Unquote(bl.Value); err == nil {
+					name = u
+				}
+			}
+			ctor := "?"
+			ast.Inspect(c.Args[1], func(m ast.Node) bool {
+				if cc, ok := m.(*ast.CallExpr); ok && ctor == "?" {
+					fn := exprName(cc.Fun)
+					if strings.HasPrefix(fn, "actions.New") {
+						ctor = strings.TrimPrefix(fn, "actions.")
+					}
+				}
+				return true
+			})
+			res = append(res, fmt.Sprintf("(%s, %s)", leanStr(name), leanStr(ctor)))
+			return true
+		})
+	}
+	sort.Strings(res)
 	return res
 }
 
@@ -641,6 +675,7 @@ func main() {
 	stray := append(strayWakes(act), strayWakes(svc)...)
 	fmt.Fprintf(&out, "/-- Wake* call sites outside commit hooks (outside notify.go): (file, callee) -/\ndef strayWakes : List (String × String) := [%s]\n", strings.Join(stray, ", "))
 
+	fmt.Fprintf(&out, "\n/-- maintenance services registered by services/prune-common.go: (service name, action constructor) -/\ndef pruneServices : List (String × String) := [%s]\n", strings.Join(pruneServices(svc), ", "))
 	flt := byName["faults"]
 	fmt.Fprintf(&out, "\n/-- steps of faults.Set.Check found in the source, in order -/\ndef faultsCheckShape : List String := %s\n", q(faultsCheckShape(flt)))
 	fmt.Fprintf(&out, "/-- statements of faults.Description.match, in order -/\ndef faultsMatchShape : List String := %s\n", q(faultsMatchShape(flt)))
